@@ -1,7 +1,34 @@
-(** C19 proofs. *)
+(** C19 proofs, part 1: pair replacement, frequencies, accepted runs. *)
 From TU Require Import Base C19_Model.
 From Coq Require Import Lia Permutation.
 Open Scope N_scope.
+Arguments N.add : simpl never.
+Arguments N.sub : simpl never.
+Arguments N.mul : simpl never.
+Arguments N.div : simpl never.
+Arguments N.modulo : simpl never.
+Arguments N.eqb : simpl never.
+Arguments N.ltb : simpl never.
+Arguments N.leb : simpl never.
+Arguments N.max : simpl never.
+
+(** * Boolean equalities *)
+Lemma nlist_eqb_eq : forall a b, nlist_eqb a b = true <-> a = b.
+Proof.
+  induction a as [|x a IH]; destruct b as [|y b]; cbn [nlist_eqb]; split; intros H; try reflexivity; try discriminate.
+  - apply andb_true_iff in H as [H1 H2]. apply N.eqb_eq in H1. apply IH in H2. now subst.
+  - injection H as <- <-. apply andb_true_iff; split; [apply N.eqb_refl | now apply IH].
+Qed.
+Lemma nlist_eqb_refl : forall a, nlist_eqb a a = true.
+Proof. intros a. now apply nlist_eqb_eq. Qed.
+
+Lemma pair_eqb_eq : forall p q, pair_eqb p q = true <-> p = q.
+Proof.
+  intros [a b] [a' b']; unfold pair_eqb, tok_eqb; cbn [fst snd]. rewrite andb_true_iff, !nlist_eqb_eq.
+  split; [intros [-> ->]; reflexivity | intros H; injection H as -> ->; auto].
+Qed.
+Lemma pair_eqb_refl : forall p, pair_eqb p p = true.
+Proof. intros p. now apply pair_eqb_eq. Qed.
 
 (** * Pair replacement preserves the bytes of a word *)
 Lemma replace_aux_concat : forall p w last,
@@ -18,4 +45,254 @@ Lemma replace_concat_l : forall p w, concat (replace_in_word p w) = concat w.
 Proof.
   intros p [|a r]; cbn [replace_in_word concat]; [reflexivity|].
   apply replace_aux_concat.
+Qed.
+
+Lemma apply_pair_bytes : forall c p,
+  map (fun wk => (concat (fst wk), snd wk)) (apply_pair c p) = map (fun wk => (concat (fst wk), snd wk)) c.
+Proof.
+  intros c p. unfold apply_pair. rewrite map_map. apply map_ext. intros [w k]; cbn [fst snd].
+  now rewrite replace_concat_l.
+Qed.
+
+Lemma state_after_bytes : forall ps c,
+  map (fun wk => (concat (fst wk), snd wk)) (state_after c ps) = map (fun wk => (concat (fst wk), snd wk)) c.
+Proof.
+  induction ps as [|p ps IH]; intros c; cbn [state_after fold_left]; [reflexivity|].
+  fold (state_after (apply_pair c p) ps). rewrite IH. apply apply_pair_bytes.
+Qed.
+
+(** * Frequencies *)
+Lemma count_pair_pos_in : forall p l, 0 < count_pair p l -> In p l.
+Proof.
+  intros p l; induction l as [|q r IH]; cbn [count_pair]; intros H; [lia|].
+  destruct (pair_eqb p q) eqn:E.
+  - left. symmetry. now apply pair_eqb_eq.
+  - right. apply IH. lia.
+Qed.
+Lemma count_pair_in_pos : forall p l, In p l -> 0 < count_pair p l.
+Proof.
+  intros p l; induction l as [|q r IH]; cbn [count_pair In]; intros H; [tauto|].
+  destruct H as [->|H]; [rewrite pair_eqb_refl; lia|]. specialize (IH H). lia.
+Qed.
+
+Lemma pair_freq_pos_in : forall c p, 0 < pair_freq c p -> In p (all_pairs c).
+Proof.
+  intros c p; induction c as [|[w k] r IH]; cbn [pair_freq]; intros H; [lia|].
+  unfold all_pairs; cbn [flat_map fst]. apply in_or_app.
+  destruct (N.eq_dec (count_pair p (word_pairs w)) 0) as [E|E].
+  - right. apply IH. rewrite E in H. lia.
+  - left. apply count_pair_pos_in. lia.
+Qed.
+
+Lemma In_dedup : forall l p, In p (dedup l) <-> In p l.
+Proof.
+  induction l as [|q r IH]; intros p; cbn [dedup]; [tauto|].
+  destruct (existsb (pair_eqb q) r) eqn:E.
+  - rewrite IH. cbn [In]. split; [tauto|]. intros [<-|H]; [|exact H].
+    apply existsb_exists in E as (x & Hx & Hq). apply pair_eqb_eq in Hq. now subst.
+  - cbn [In]. now rewrite IH.
+Qed.
+
+Lemma fold_max_ge : forall (l : list N) x, In x l -> x <= fold_right N.max 0 l.
+Proof.
+  induction l as [|y l IH]; cbn [fold_right In]; intros x H; [tauto|].
+  destruct H as [->|H]; [lia|]. specialize (IH x H). lia.
+Qed.
+Lemma fold_max_attained : forall (l : list N), 0 < fold_right N.max 0 l -> In (fold_right N.max 0 l) l.
+Proof.
+  induction l as [|y l IH]; cbn [fold_right In]; intros H; [lia|].
+  destruct (N.max_spec y (fold_right N.max 0 l)) as [[Hlt ->]|[Hle ->]].
+  - right. apply IH. lia.
+  - now left.
+Qed.
+
+Lemma max_freq_ge : forall c q, pair_freq c q <= max_freq c.
+Proof.
+  intros c q. destruct (N.eq_dec (pair_freq c q) 0) as [E|E]; [lia|].
+  unfold max_freq. apply fold_max_ge. apply in_map. unfold dpairs. apply In_dedup.
+  apply pair_freq_pos_in. lia.
+Qed.
+Lemma max_freq_attained : forall c, 0 < max_freq c ->
+  exists p, In p (all_pairs c) /\ pair_freq c p = max_freq c.
+Proof.
+  intros c H. unfold max_freq in *. apply fold_max_attained in H.
+  apply in_map_iff in H as (p & Hp & Hin). exists p. split; [|exact Hp].
+  now apply In_dedup.
+Qed.
+
+Lemma step_okb_spec : forall c p, step_okb c p = true <-> StepOK c p.
+Proof.
+  intros c p. unfold step_okb, StepOK. rewrite andb_true_iff, N.ltb_lt, N.eqb_eq. split.
+  - intros [Hm He]. split; [apply pair_freq_pos_in; lia|]. split; [lia|].
+    intros q. rewrite He. apply max_freq_ge.
+  - intros (Hin & Hpos & Hmax). pose proof (max_freq_ge c p) as Hge.
+    assert (max_freq c <= pair_freq c p).
+    { destruct (N.eq_dec (max_freq c) 0) as [E|E]; [lia|].
+      destruct (max_freq_attained c) as (q & _ & Hq); [lia|]. rewrite <- Hq. apply Hmax. }
+    lia.
+Qed.
+
+Lemma exhaustedb_spec : forall c, exhaustedb c = true <-> Exhausted c.
+Proof.
+  intros c. unfold exhaustedb, Exhausted. rewrite N.eqb_eq. split.
+  - intros H q. pose proof (max_freq_ge c q). lia.
+  - intros H. destruct (N.eq_dec (max_freq c) 0) as [E|E]; [exact E|].
+    destruct (max_freq_attained c) as (q & _ & Hq); [lia|]. rewrite H in Hq. lia.
+Qed.
+
+Lemma cands_spec : forall c e p, In p (cands c e) <-> StepOK c p /\ merge p = e.
+Proof.
+  intros c e p. unfold cands. destruct (0 <? max_freq c) eqn:Em.
+  - rewrite filter_In, andb_true_iff. unfold tok_eqb. rewrite nlist_eqb_eq.
+    rewrite <- step_okb_spec. unfold step_okb. rewrite Em. cbn [andb]. unfold dpairs. rewrite In_dedup.
+    split; [tauto|]. intros [He Hm]. split; [|tauto]. apply pair_freq_pos_in.
+    apply N.ltb_lt in Em. apply N.eqb_eq in He. lia.
+  - cbn [In]. split; [tauto|]. intros [H _]. apply step_okb_spec in H. unfold step_okb in H.
+    rewrite Em in H. discriminate.
+Qed.
+
+(** * The executable acceptance test is exactly the run relation *)
+Lemma accepts_sound_l : forall es c k, accepts c k es = true ->
+  exists ps, Run c k ps /\ map merge ps = es.
+Proof.
+  induction es as [|e es IH]; intros c k H; cbn [accepts] in H.
+  - exists []. split; [|reflexivity]. destruct k; [constructor|]. constructor. now apply exhaustedb_spec.
+  - destruct k as [|k]; [discriminate|].
+    apply existsb_exists in H as (p & Hp & Hacc). apply cands_spec in Hp as [Hok He].
+    destruct (IH _ _ Hacc) as (ps & Hrun & Hps). exists (p :: ps). split.
+    + now constructor.
+    + cbn [map]. now rewrite He, Hps.
+Qed.
+
+Lemma accepts_complete_l : forall c k ps, Run c k ps -> accepts c k (map merge ps) = true.
+Proof.
+  intros c k ps H; induction H as [c|c k Hex|c k p ps Hok Hrun IH]; cbn [map accepts].
+  - reflexivity.
+  - destruct k; [reflexivity|]. now apply exhaustedb_spec.
+  - apply existsb_exists. exists p. split; [|exact IH]. apply cands_spec. now split.
+Qed.
+
+(** * The deterministic trainer is an accepted run *)
+Lemma best_spec : forall c, match best c with Some p => StepOK c p | None => Exhausted c end.
+Proof.
+  intros c. unfold best. destruct (0 <? max_freq c) eqn:Em.
+  - destruct (find _ _) as [p|] eqn:Ef.
+    + apply find_some in Ef as [_ He]. apply step_okb_spec. unfold step_okb. now rewrite Em, He.
+    + apply N.ltb_lt in Em. destruct (max_freq_attained c Em) as (q & Hq & Hf).
+      eapply find_none in Ef; [|unfold dpairs; apply In_dedup; exact Hq].
+      cbn beta in Ef. rewrite Hf, N.eqb_refl in Ef. discriminate.
+  - apply exhaustedb_spec. unfold exhaustedb. apply N.ltb_ge in Em. apply N.eqb_eq. lia.
+Qed.
+
+Lemma train_run_l : forall k c, Run c k (train k c).
+Proof.
+  induction k as [|k IH]; intros c; cbn [train]; [constructor|].
+  pose proof (best_spec c) as H. destruct (best c) as [p|].
+  - constructor; [exact H | apply IH].
+  - now constructor.
+Qed.
+
+(** * Facts about every accepted run *)
+Lemma run_length_l : forall c k ps, Run c k ps -> (length ps <= k)%nat.
+Proof. intros c k ps H; induction H; cbn [length]; lia. Qed.
+
+Lemma run_short_exhausted_l : forall c k ps, Run c k ps -> (length ps < k)%nat -> Exhausted (state_after c ps).
+Proof.
+  intros c k ps H; induction H as [c|c k Hex|c k p ps Hok Hrun IH]; cbn [length state_after fold_left]; intros Hl.
+  - lia.
+  - exact Hex.
+  - apply IH. lia.
+Qed.
+
+Lemma run_entry_max_l : forall c k ps, Run c k ps ->
+  forall i p, nth_error ps i = Some p -> StepOK (state_after c (firstn i ps)) p.
+Proof.
+  intros c k ps H; induction H as [c|c k Hex|c k p ps Hok Hrun IH]; intros i q Hn.
+  - destruct i; discriminate.
+  - destruct i; discriminate.
+  - destruct i as [|i]; cbn [nth_error firstn state_after fold_left] in *.
+    + injection Hn as <-. exact Hok.
+    + now apply IH.
+Qed.
+
+(** * Well-formed tables: every merged pair consists of bytes or earlier entries *)
+Lemma TokOK_mono : forall tbl tbl' t, TokOK tbl t -> TokOK (tbl ++ tbl') t.
+Proof. intros tbl tbl' t [H|H]; [now left | right; apply in_or_app; now left]. Qed.
+
+Lemma word_pairs_in : forall w a b, In (a, b) (word_pairs w) -> In a w /\ In b w.
+Proof.
+  induction w as [|x r IH]; intros a b H; cbn [word_pairs] in H; [tauto|].
+  destruct r as [|y r']; [destruct H|]. cbn [In] in H. destruct H as [H|H].
+  - injection H as <- <-. cbn [In]. tauto.
+  - apply IH in H. cbn [In] in *. tauto.
+Qed.
+
+Lemma all_pairs_in : forall c p, In p (all_pairs c) ->
+  exists w k, In (w, k) c /\ In (fst p) w /\ In (snd p) w.
+Proof.
+  intros c [a b] H. unfold all_pairs in H. apply in_flat_map in H as ([w k] & Hin & Hp).
+  cbn [fst] in Hp. apply word_pairs_in in Hp. exists w, k. cbn [fst snd]. tauto.
+Qed.
+
+Definition GoodTok (tbl : list token) (t : token) : Prop := t <> [] /\ TokOK tbl t.
+
+Lemma replace_aux_good : forall tbl p w last,
+  GoodTok (tbl ++ [merge p]) last -> Forall (GoodTok (tbl ++ [merge p])) w ->
+  Forall (GoodTok (tbl ++ [merge p])) (replace_aux p last w).
+Proof.
+  intros tbl p w; induction w as [|s r IH]; intros last Hl Hw; cbn [replace_aux].
+  - constructor; [exact Hl | constructor].
+  - inversion Hw as [|? ? Hs Hr]; subst.
+    destruct (tok_eqb last (fst p) && tok_eqb s (snd p)) eqn:E.
+    + apply IH; [|exact Hr]. apply andb_true_iff in E as [E1 E2].
+      apply nlist_eqb_eq in E1, E2. subst. split.
+      * destruct Hl as [Hne _]. destruct (fst p); [congruence | discriminate].
+      * right. apply in_or_app. right. now left.
+    + constructor; [exact Hl|]. apply IH; assumption.
+Qed.
+
+Lemma apply_pair_ok : forall tbl c p, CorpusOK tbl c -> CorpusOK (tbl ++ [merge p]) (apply_pair c p).
+Proof.
+  intros tbl c p H w k Hin. unfold apply_pair in Hin. apply in_map_iff in Hin as ([w0 k0] & He & Hin0).
+  cbn [fst snd] in He. injection He as <- <-. specialize (H _ _ Hin0).
+  assert (Hm : Forall (GoodTok (tbl ++ [merge p])) w0).
+  { eapply Forall_impl; [|exact H]. intros t [Hne Ht]. split; [exact Hne | now apply TokOK_mono]. }
+  destruct w0 as [|a r]; cbn [replace_in_word]; [constructor|].
+  inversion Hm; subst. now apply replace_aux_good.
+Qed.
+
+Lemma run_table_wf_gen : forall c k ps, Run c k ps -> forall tbl, CorpusOK tbl c ->
+  forall i p, nth_error ps i = Some p ->
+    GoodTok (tbl ++ map merge (firstn i ps)) (fst p) /\ GoodTok (tbl ++ map merge (firstn i ps)) (snd p).
+Proof.
+  intros c k ps H; induction H as [c|c k Hex|c k p ps Hok Hrun IH]; intros tbl Hc i q Hn.
+  - destruct i; discriminate.
+  - destruct i; discriminate.
+  - destruct i as [|i]; cbn [nth_error firstn map] in *.
+    + injection Hn as <-. rewrite app_nil_r. destruct Hok as (Hin & _).
+      apply all_pairs_in in Hin as (w & kk & Hw & Hf & Hs). specialize (Hc _ _ Hw).
+      rewrite Forall_forall in Hc. split; [apply (Hc _ Hf) | apply (Hc _ Hs)].
+    + specialize (IH (tbl ++ [merge p]) (apply_pair_ok _ _ _ Hc) i q Hn).
+      rewrite <- app_assoc in IH. exact IH.
+Qed.
+
+Lemma run_table_wf_l : forall c k ps, CorpusOK [] c -> Run c k ps ->
+  (length ps <= k)%nat /\
+  forall i p, nth_error ps i = Some p ->
+    TokOK (map merge (firstn i ps)) (fst p) /\ TokOK (map merge (firstn i ps)) (snd p)
+    /\ (2 <= length (merge p))%nat.
+Proof.
+  intros c k ps Hc Hr. split; [eapply run_length_l; eassumption|].
+  intros i p Hn. destruct (run_table_wf_gen _ _ _ Hr [] Hc i p Hn) as [[Hn1 H1] [Hn2 H2]].
+  cbn [app] in *. split; [exact H1|]. split; [exact H2|].
+  unfold merge. rewrite app_length. destruct (fst p); [congruence|]. destruct (snd p); [congruence|].
+  cbn [length]. lia.
+Qed.
+
+(** the initial vocabulary consists of single bytes *)
+Lemma corpus_of_ok : forall m, CorpusOK [] (corpus_of m).
+Proof.
+  intros m w k Hin. unfold corpus_of in Hin. apply in_map_iff in Hin as ([w0 k0] & He & _).
+  injection He as <- <-. cbn [fst]. unfold init_word. apply Forall_forall. intros t Ht.
+  apply in_map_iff in Ht as (b & <- & _). split; [discriminate | left; now exists b].
 Qed.
